@@ -4,6 +4,7 @@ import (
 	"fmt"
 	"go/constant"
 	"go/token"
+	"go/types"
 	"sort"
 	"strings"
 
@@ -45,7 +46,20 @@ func runGROUP(c *Ctx, r *Result, rule string) int {
 			}
 		case *ssa.Extract:
 			call, isCall := k.Tuple.(*ssa.Call)
-			if !isCall || call.Call.StaticCallee() == nil || shortFn(call.Call.StaticCallee()) != "jtypes.AsString" || k.Index != 0 {
+			if isCall && k.Index == 0 && call.Call.StaticCallee() != nil && call.Call.StaticCallee().Pkg == f.Pkg && stringKeyHelper(call.Call.StaticCallee(), 0) {
+				// a helper of the package that returns (key, error): every return without an error
+				// hands back a string by construction, and the caller uses the key only after
+				// the error has been tested
+				var errv ssa.Value
+				for _, rf := range *call.Referrers() {
+					if e, isEx := rf.(*ssa.Extract); isEx && isErrorType(e.Type()) {
+						errv = e
+					}
+				}
+				if errv == nil || !domGuard(mu.Block(), func(cond ssa.Value) (int, bool) { return nilEdge(cond, errv, true) }) {
+					bad = "the key comes from " + shortFn(call.Call.StaticCallee()) + " and is used without testing the error returned with it"
+				}
+			} else if !isCall || call.Call.StaticCallee() == nil || shortFn(call.Call.StaticCallee()) != "jtypes.AsString" || k.Index != 0 {
 				bad = "the key is not the result of jtypes.AsString"
 			} else {
 				var okv ssa.Value
@@ -459,4 +473,83 @@ func sameKeyValue(c *Ctx, a, b ssa.Value) bool {
 	fa, ok1 := la.X.(*ssa.FieldAddr)
 	fb, ok2 := lb.X.(*ssa.FieldAddr)
 	return ok1 && ok2 && fa.X == fb.X && fa.Field == fb.Field
+}
+
+// nilEdge: cond is v == nil (want: the edge on which v is nil) or v != nil.
+func nilEdge(cond, v ssa.Value, wantNil bool) (int, bool) {
+	bo, ok := cond.(*ssa.BinOp)
+	if !ok || (bo.Op != token.EQL && bo.Op != token.NEQ) {
+		return 0, false
+	}
+	if !((bo.X == v && isNilConst(bo.Y)) || (bo.Y == v && isNilConst(bo.X))) {
+		return 0, false
+	}
+	if (bo.Op == token.EQL) == wantNil {
+		return 0, true
+	}
+	return 1, true
+}
+
+// stringKeyHelper: g returns (string, error); on every return that is not provably an error the
+// string is a string by construction: the Value of a string literal node, the first result of
+// jtypes.AsString behind its ok test, or the result of another such helper behind its error test.
+func stringKeyHelper(g *ssa.Function, depth int) bool {
+	if depth > 2 || len(g.Blocks) == 0 {
+		return false
+	}
+	res := g.Signature.Results()
+	if res.Len() != 2 || !isErrorType(res.At(1).Type()) {
+		return false
+	}
+	if b, ok := res.At(0).Type().Underlying().(*types.Basic); !ok || b.Kind() != types.String {
+		return false
+	}
+	n := 0
+	for _, b := range g.Blocks {
+		ret, ok := b.Instrs[len(b.Instrs)-1].(*ssa.Return)
+		if !ok || !isSuccessReturn(ret) {
+			continue
+		}
+		n++
+		if !stringByConstruction(ret.Results[0], b, depth) {
+			return false
+		}
+	}
+	return n > 0
+}
+
+func stringByConstruction(v ssa.Value, at *ssa.BasicBlock, depth int) bool {
+	switch k := v.(type) {
+	case *ssa.UnOp:
+		return fieldLoadOf(k, nil, "Value")
+	case *ssa.Phi:
+		for _, e := range k.Edges {
+			if !stringByConstruction(e, at, depth+1) {
+				return false
+			}
+		}
+		return depth < 4 && len(k.Edges) > 0
+	case *ssa.Extract:
+		call, ok := k.Tuple.(*ssa.Call)
+		if !ok || k.Index != 0 || call.Call.StaticCallee() == nil {
+			return false
+		}
+		callee := call.Call.StaticCallee()
+		var second ssa.Value
+		for _, rf := range *call.Referrers() {
+			if e, isEx := rf.(*ssa.Extract); isEx && e.Index == 1 {
+				second = e
+			}
+		}
+		if second == nil {
+			return false
+		}
+		if shortFn(callee) == "jtypes.AsString" {
+			return domGuard(at, func(cond ssa.Value) (int, bool) { return boolEdge(cond, second, true) })
+		}
+		if callee.Pkg == at.Parent().Pkg && stringKeyHelper(callee, depth+1) {
+			return domGuard(at, func(cond ssa.Value) (int, bool) { return nilEdge(cond, second, true) })
+		}
+	}
+	return false
 }
